@@ -109,8 +109,9 @@ def explore(ctx, depth):
         else:
             vals = {e: d.get(e) for e in ENCS}
             if TS not in text and DS not in text and clef is not None:
-                if any(v != {'ok': text} for v in vals.values()):
-                    ctx.fail({**inp, 'clause': 'non-note cells identical'}, 'a non-note cell differs between encodings', impl=vals, expected={'ok': text})
+                ref = {'ok': t.encoding}      # (a barline token's text is the cell without its measure number)
+                if any(v != ref for v in vals.values()):
+                    ctx.fail({**inp, 'clause': 'non-note cells identical'}, 'a non-note cell differs between encodings', impl=vals, expected=ref)
     # headers
     for h in ['**kern', '**text', '**dynam', '**harm', '**mxhm', '**fing', '**root', '**dyn']:
         for e in Encoding.__members__.values():
